@@ -790,3 +790,56 @@ def r_leak(e, R):
                 "two descriptors and three semaphores per broken/killed executor", e.loc(cf, c))
     # (6) the sentinel has a closing finaliser (R-EXITCODE) and the launch closes its child ends (R-SPAWN-FRESH) -- referenced, not duplicated
     R.floor("R-LEAK", 8)
+
+
+# ---------------------------------------------------------------------------
+# R-VENDOR
+# ---------------------------------------------------------------------------
+def r_vendor(e, R):
+    """loky is written to be vendored (joblib ships it as joblib.externals.loky): every import inside the package is relative, and the
+    two child interpreters it starts (the worker: `-m <module>`, the resource tracker: `-c "from <module> import main; ..."`) are told the
+    module name under which *this copy* was imported.  A literal `loky....` name makes the child import another copy or fail with
+    ModuleNotFoundError: the tracker never starts (nothing is ever unlinked, C11-C13), the worker never starts (C18)."""
+    import re
+    pat = re.compile(r"(^|[;\s])(from|import)\s+loky(\.|\s|$)")
+    n_dyn = 0
+    for mname, mod in e.prog.modules.items():
+        if not mname.startswith("loky") or mname == "__user__":
+            continue
+        if mod.path.endswith(("_win32.py", "_win_reduction.py")):
+            continue
+        doc = {id(s.value) for n in ast.walk(mod.tree) if isinstance(n, (ast.Module, ast.FunctionDef, ast.ClassDef, ast.AsyncFunctionDef)) for s in n.body[:1]
+               if isinstance(s, ast.Expr) and isinstance(s.value, ast.Constant)}
+        n_imp, bad_imp = 0, []
+        for n in ast.walk(mod.tree):
+            if isinstance(n, (ast.Import, ast.ImportFrom)):
+                names = [al.name for al in n.names] if isinstance(n, ast.Import) else ([n.module or ""] if n.level == 0 else [])
+                for nm in names:
+                    n_imp += 1
+                    if nm == "loky" or nm.startswith("loky."):
+                        bad_imp.append((nm, n.lineno))
+            if isinstance(n, ast.Constant) and isinstance(n.value, str) and id(n) not in doc and pat.search(n.value):
+                R.check(False, "R-VENDOR", f"{mod.path}: code strings do not name the package literally", mname, n.value.strip()[:60],
+                        f"the code string `{n.value.strip()[:60]}` imports loky by a literal name: run by a child interpreter of a vendored copy it fails with ModuleNotFoundError "
+                        "(the resource tracker never starts: registered semaphores and files are never unlinked)", f"{mod.path}:{n.lineno}")
+            if isinstance(n, (ast.List, ast.Tuple)):
+                for x, y in zip(n.elts, n.elts[1:]):
+                    if isinstance(x, ast.Constant) and x.value == "-m":
+                        lit = isinstance(y, ast.Constant)
+                        n_dyn += 0 if lit else 1
+                        R.check(not lit, "R-VENDOR", f"{mod.path}: the module run by the child (`-m`) is named dynamically", mname, f"-m {norm(y)}",
+                                "the child interpreter is started with a literal module name: a vendored copy starts another package's code or fails", f"{mod.path}:{n.lineno}")
+            if isinstance(n, ast.JoinedStr):
+                txt = "".join(v.value if isinstance(v, ast.Constant) else "\0" for v in n.values)
+                if re.search(r"(^|[;\s])(from|import)\s+\0", txt):
+                    n_dyn += 1
+                    R.ok("R-VENDOR", f"{mod.path}: import in a code string names the module dynamically (`{norm(n)[:50]}`)", f"{mod.path}:{n.lineno}")
+        for nm, ln in bad_imp:
+            R.fail("R-VENDOR", mname, f"import {nm}", "an absolute import of `loky` inside the package binds a *different* copy (or fails) when loky is vendored under "
+                   "another name (joblib.externals.loky)", f"{mod.path}:{ln}", instance=f"{mod.path}: imports of the package's own modules are relative")
+        if not bad_imp:
+            R.ok("R-VENDOR", f"{mod.path}: all {n_imp} absolute imports name other packages (own modules are imported relatively)", mod.path)
+    if n_dyn < 2:
+        R.fail("R-VENDOR", "child launch", "dynamic module names", f"only {n_dyn} of the two child launch commands (worker `-m`, tracker `-c`) name loky's module dynamically "
+               "(`__module__` / `__name__`)", None)
+    R.floor("R-VENDOR", 3)
